@@ -271,6 +271,21 @@ pub fn run(run: &Run) {
     let tmp = run.tmp.clone();
     let f = move |h: &History, o: &mut Obs| check(&tmp, h, o);
     run.run_replays::<History>("history", &f);
+    if run.worker.0 == 1 % run.worker.1 {
+        // look-alike sibling names (hash collisions, case, normalisation ...): 8 configurations per child process
+        let pairs = crate::gen::cfgtree::lookalike_pairs();
+        for (ci, chunk) in pairs.chunks(8).enumerate() {
+            let steps = chunk
+                .iter()
+                .enumerate()
+                .map(|(i, (x, y))| {
+                    let (cfg, targets) = crate::gen::cfgtree::lookalike_cfg(x, y, (i + ci) % 2 == 1);
+                    Step { cfg, targets, via_root_mut: None }
+                })
+                .collect();
+            run.eval_one("history", &History { init: (ci % 2) as u8, steps }, &f);
+        }
+    }
     run.search("history", run.tier.pick(160, 4_000), strategy(), &f);
 }
 
@@ -290,7 +305,7 @@ pub fn replay(part: &str, case: serde_json::Value) -> Option<CaseResult> {
 pub fn meta() -> EvidenceMeta {
     EvidenceMeta {
         level: "exploration",
-        rule: "cases = histories of 1-8 cfgtree configurations whose most verbose level is steered per step (cap level and holder drawn: root / any logger incl. deep descendants), initialised through init_config, init_config_with_err_handler or init_raw_config (YAML + file appenders, single step) in a dedicated child process, then replaced with Handle::set_config; after every step: log::max_level() and Logger::max_log_level() equal the model's most verbose level, log::logger().enabled() equals the effective logger's threshold on a grid of 3-5 derived targets x 5 levels, and log! macro deliveries equal route() and come from the current configuration's appenders only. While set_config tears the outgoing configuration down, one of its appenders logs a record through the macros which the incoming configuration admits at its most verbose level: it must arrive as the incoming configuration prescribes. non-trivial = a step whose maximum differs from the previous step's while the most verbose level is held by a non-root logger; distinct = FNV hash of the history".into(),
+        rule: "cases = histories of 1-8 cfgtree configurations whose most verbose level is steered per step (cap level and holder drawn: root / any logger incl. deep descendants), initialised through init_config, init_config_with_err_handler or init_raw_config (YAML + file appenders, single step) in a dedicated child process, then replaced with Handle::set_config; after every step: log::max_level() and Logger::max_log_level() equal the model's most verbose level, log::logger().enabled() equals the effective logger's threshold on a grid of 3-5 derived targets x 5 levels, and log! macro deliveries equal route() and come from the current configuration's appenders only. While set_config tears the outgoing configuration down, one of its appenders logs a record through the macros which the incoming configuration admits at its most verbose level: it must arrive as the incoming configuration prescribes. Four fixed histories over look-alike sibling names (published hash collisions, case, normalisation, trimming). non-trivial = a step whose maximum differs from the previous step's while the most verbose level is held by a non-root logger; distinct = FNV hash of the history".into(),
         assumptions: vec!["log facade compiled without static max-level features".into()],
         mutants_caught: vec![],
     }
